@@ -1,7 +1,10 @@
 package vc
 
 import (
+	"crypto/sha1"
+	"encoding/hex"
 	"fmt"
+	"os"
 	"go/token"
 	"go/types"
 	"math/big"
@@ -45,12 +48,47 @@ func (g *Gen) havocVal(v ssa.Value, st *State) Term {
 }
 
 func (g *Gen) safety(kind string, in ssa.Instruction, goal Term) {
-	g.ordinals["#"+kind]++
-	g.addObl("safety", fmt.Sprintf("%s%d", kind, g.ordinals["#"+kind]), g.reach[g.curBlock], goal, g.pos(in), false)
+	g.rootGen().deferObl("safety", kind, g.reach[g.curBlock], goal, "")
+}
+
+var srcLines = map[string][]string{}
+
+// lineKey identifies the source line of an instruction by a hash of its text,
+// so that obligation names survive edits elsewhere in the file.
+func (g *Gen) lineKey(in ssa.Instruction) string {
+	p := in.Pos()
+	if !p.IsValid() {
+		// fall back to the nearest positioned instruction in the block
+		for _, o := range in.Block().Instrs {
+			if o.Pos().IsValid() {
+				p = o.Pos()
+				break
+			}
+		}
+		if !p.IsValid() {
+			return "nopos"
+		}
+	}
+	ps := g.prog.Fset.Position(p)
+	lines, ok := srcLines[ps.Filename]
+	if !ok {
+		data, err := os.ReadFile(ps.Filename)
+		if err == nil {
+			lines = strings.Split(string(data), "\n")
+		}
+		srcLines[ps.Filename] = lines
+	}
+	if ps.Line-1 >= len(lines) || ps.Line < 1 {
+		return "nopos"
+	}
+	text := strings.Join(strings.Fields(lines[ps.Line-1]), "")
+	h := sha1.Sum([]byte(text))
+	return hex.EncodeToString(h[:])[:6]
 }
 
 // instr processes one instruction; returns nil when the block terminates.
 func (g *Gen) instr(in ssa.Instruction, st *State) *State {
+	g.curInstr = in
 	switch x := in.(type) {
 	case *ssa.DebugRef:
 		return st
@@ -183,9 +221,8 @@ func (g *Gen) binop(x *ssa.BinOp, st *State) Term {
 		op := map[token.Token]string{token.ADD: "+", token.SUB: "-", token.MUL: "*"}[x.Op]
 		e := fmt.Sprintf("(%s %s %s)", op, a, b)
 		lo, hi := intRange(bi)
-		g.ordinals["#ovf"]++
-		g.addObl("ovf", fmt.Sprintf("%d", g.ordinals["#ovf"]), g.reach[g.curBlock],
-			fmt.Sprintf("(and (<= %s %s) (<= %s %s))", intLit(lo), e, e, intLit(hi)), g.pos(x), false)
+		g.rootGen().deferObl("safety", "ovf", g.reach[g.curBlock],
+			fmt.Sprintf("(and (<= %s %s) (<= %s %s))", intLit(lo), e, e, intLit(hi)), "")
 		return wrapTerm(e, bi)
 	case token.QUO, token.REM:
 		if bi == nil {
@@ -635,7 +672,7 @@ func (g *Gen) ret(x *ssa.Return, st *State) {
 	}
 	for _, e := range g.con.Ensures {
 		goal := g.evalBool(env, e.Expr, e.Src)
-		g.addObl("post", e.Label, r, goal, e.Src, false)
+		g.deferObl("post", e.Label, r, goal, e.Src)
 	}
-	g.addObl("cover", fmt.Sprintf("return%d", g.retBlocks), r, "true", g.pos(x), true)
+	g.retReach = append(g.retReach, r)
 }
